@@ -34,7 +34,7 @@ int scale() { return g_scale; }
 
 const Scenario *find_scenario(const std::string &name)
 {
-  for (const Scenario *s : {&kLocksScenario, &kIdmScenario, &kEpochScenario, &kZipfScenario})
+  for (const Scenario *s : {&kLocksScenario, &kIdmScenario, &kEpochScenario, &kZipfScenario, &kLitmusScenario})
     if (name == s->name) return s;
   return nullptr;
 }
@@ -655,6 +655,7 @@ static int cmd_explore(std::map<std::string, std::string> &a)
     g_cur.cfg.sched_seed = dsim::mix64(seed_i, 3);
     g_cur.cfg.fault_seed = dsim::mix64(seed_i, 4);
     g_scn->generate(g_prog, g_cur.cfg, prog_rng, cfg_rng, family, profile);
+    if (a.count("trace")) g_cur.cfg.trace = true;
     g_cur_index = idx;
     dsim::Result r;
     uint64_t run_probes[64];
